@@ -707,7 +707,7 @@ def run_opes(exe, case, scratch, timeout=30.0):
         # (smp: the engine's thread pool is on and a second bias is defined; a bias that talks to the other replicas must
         # then still be updated by the main thread)
         setup = ["natoms 1", "samestep 1", "temperature 300", "dt 1", "restartfreq 1000"] + (["smp perm 2"] if case.get("smp") else []) + \
-                ["new", "config EOF"] + opes_conf(case) + \
+                ["new"] + (["setstep %d" % case["step0"]] if case.get("step0") else []) + ["config EOF"] + opes_conf(case) + \
                 (["harmonic {", "  name h", "  colvars v0", "  centers 0", "  forceConstant 0.0", "}"] if case.get("smp") else []) + \
                 ["EOF", "show cv 0 energy 0 bias 0 atomf 0"]
         for r in T.all_do(setup, timeout):
